@@ -149,4 +149,467 @@ theorem namedByAttrs_exact (allows : List (List String)) (code : String)
   · rintro ⟨a, ha, id, hid, h⟩
     exact ⟨a, ha, (namedBy_exact a code (hids a ha) hcode).2 ⟨id, hid, h⟩⟩
 
+/-! ### lookup in a table with a unique key -/
+
+theorem mem_length_le_one {α} {l : List α} {a b : α} (h : l.length ≤ 1) (ha : a ∈ l) (hb : b ∈ l) : a = b := by
+  match l, h with
+  | [], _ => cases ha
+  | [x], _ =>
+    simp at ha hb
+    rw [ha, hb]
+  | _ :: _ :: _, h => simp at h
+
+/-- `HashMap::insert` + `get` on a key that was inserted once: the lookup returns that entry -/
+theorem find_rev_unique {α} (l : List (String × α)) (k : String) (e : String × α) (he : e ∈ l) (hk : e.1 = k)
+    (hu : (l.filter fun x => x.1 == k).length ≤ 1) : l.reverse.find? (fun x => x.1 == k) = some e := by
+  cases h : l.reverse.find? (fun x => x.1 == k) with
+  | none =>
+    rw [List.find?_eq_none] at h
+    exact absurd (by simp [hk]) (h e (List.mem_reverse.2 he))
+  | some e' =>
+    have h1 : e' ∈ l := List.mem_reverse.1 (List.mem_of_find?_eq_some h)
+    have h2 := List.find?_some h
+    have m1 : e ∈ l.filter fun x => x.1 == k := List.mem_filter.2 ⟨he, by simp [hk]⟩
+    have m2 : e' ∈ l.filter fun x => x.1 == k := List.mem_filter.2 ⟨h1, h2⟩
+    rw [mem_length_le_one hu m2 m1]
+
+theorem scopeAllowsOf_of_mem (p : Program) (k : String) (c : List (List String)) (hm : (k, some c) ∈ allowTable p)
+    (hu : keyCount p k ≤ 1) : scopeAllowsOf p k = some c := by
+  unfold scopeAllowsOf
+  rw [find_rev_unique (allowTable p) k (k, some c) hm rfl hu]
+
+/-! ### `all_attributes()` by the extracted inheritance table = own attributes, then the enclosing definitions' -/
+
+theorem withInherited_struct (own par) : withInherited "Struct" own par = own := by
+  have : Gen.attributeInheritance.any (fun r => r.1 == "Struct") = false := by decide
+  simp [withInherited, this]
+theorem withInherited_interface (own par) : withInherited "Interface" own par = own := by
+  have : Gen.attributeInheritance.any (fun r => r.1 == "Interface") = false := by decide
+  simp [withInherited, this]
+theorem withInherited_enum (own par) : withInherited "Enum" own par = own := by
+  have : Gen.attributeInheritance.any (fun r => r.1 == "Enum") = false := by decide
+  simp [withInherited, this]
+theorem withInherited_custom (own par) : withInherited "CustomType" own par = own := by
+  have : Gen.attributeInheritance.any (fun r => r.1 == "CustomType") = false := by decide
+  simp [withInherited, this]
+theorem withInherited_alias (own par) : withInherited "TypeAlias" own par = own := by
+  have : Gen.attributeInheritance.any (fun r => r.1 == "TypeAlias") = false := by decide
+  simp [withInherited, this]
+theorem withInherited_field (own par) : withInherited "Field" own par = own ++ par := by
+  have : Gen.attributeInheritance.any (fun r => r.1 == "Field") = true := by decide
+  simp [withInherited, this]
+theorem withInherited_operation (own par) : withInherited "Operation" own par = own ++ par := by
+  have : Gen.attributeInheritance.any (fun r => r.1 == "Operation") = true := by decide
+  simp [withInherited, this]
+theorem withInherited_parameter (own par) : withInherited "Parameter" own par = own ++ par := by
+  have : Gen.attributeInheritance.any (fun r => r.1 == "Parameter") = true := by decide
+  simp [withInherited, this]
+theorem withInherited_enumerator (own par) : withInherited "Enumerator" own par = own ++ par := by
+  have : Gen.attributeInheritance.any (fun r => r.1 == "Enumerator") = true := by decide
+  simp [withInherited, this]
+
+
+/-! ### every written type reference is registered under its written scope with its chain -/
+
+/-- the key a lint about this reference records resolves (in the table of definition `d`) to the reference's own chain -/
+def RefOk (tbl : AllowTable) (m : MemberRef) : Prop := (m.writtenScope, some m.chain) ∈ tbl
+
+theorem memberAllows_mem {kind scope : String} {par : List (List String)} {ms : List (String × List Attr)} {name : String} {attrs : List Attr}
+    (h : (name, attrs) ∈ ms) : (scopedId name scope, some (withInherited kind (allowArgs attrs) par)) ∈ memberAllows kind scope par ms := by
+  unfold memberAllows
+  exact List.mem_map.2 ⟨(name, attrs), h, rfl⟩
+
+theorem fieldRefs_mem {ckey path : String} {cchain : List (List String)} {fs : List Field} {m : MemberRef} (h : m ∈ fieldRefs ckey cchain path fs) :
+    ∃ f ∈ fs, ∃ pth, m = namedMemberRef ckey cchain f.name f.attrs pth f.ty := by
+  unfold fieldRefs at h
+  obtain ⟨⟨f, i⟩, hfi, rfl⟩ := List.mem_map.1 h
+  exact ⟨f, List.fst_mem_of_mem_zipIdx hfi, _, rfl⟩
+
+theorem namedMemberRef_ok (hflag : Gen.memberTypesParsedInMemberScope = true) {tbl : AllowTable} {ckey : String} {cchain : List (List String)}
+    {name : String} {attrs : List Attr} {pth : String} {ty : TRef}
+    (h : (scopedId name ckey, some (allowArgs attrs ++ cchain)) ∈ tbl) : RefOk tbl (namedMemberRef ckey cchain name attrs pth ty) := by
+  simpa [RefOk, namedMemberRef, memberTypeScope, hflag] using h
+
+theorem RefOk.mono {t1 t2 : AllowTable} {m : MemberRef} (h : RefOk t1 m) (hsub : ∀ e ∈ t1, e ∈ t2) : RefOk t2 m := hsub _ h
+
+/-- the table entries of one operation: its parameters and return members, then the operation -/
+def opAllowEntries (ikey : String) (iall : List (List String)) (o : Op) : AllowTable :=
+  memberAllows "Parameter" (scopedId o.name ikey) (withInherited "Operation" (allowArgs o.attrs) iall)
+    ((o.params ++ retParams o.ret).map fun q => (q.name, q.attrs)) ++
+  [(scopedId o.name ikey, some (withInherited "Operation" (allowArgs o.attrs) iall))]
+
+theorem opRefs_ok (hflag : Gen.memberTypesParsedInMemberScope = true) (ikey pth : String) (iall : List (List String)) (o : Op) :
+    ∀ m ∈ opRefs (scopedId o.name ikey) (allowArgs o.attrs ++ iall) pth o, RefOk (opAllowEntries ikey iall o) m := by
+  intro m hm
+  have hparam : ∀ q : Param, q ∈ o.params ++ retParams o.ret → ∀ p2 : String,
+      RefOk (opAllowEntries ikey iall o) (namedMemberRef (scopedId o.name ikey) (allowArgs o.attrs ++ iall) q.name q.attrs p2 q.ty) := by
+    intro q hq p2
+    apply namedMemberRef_ok hflag
+    unfold opAllowEntries
+    apply List.mem_append_left
+    have := memberAllows_mem (kind := "Parameter") (scope := scopedId o.name ikey) (par := withInherited "Operation" (allowArgs o.attrs) iall)
+      (ms := (o.params ++ retParams o.ret).map fun q => (q.name, q.attrs)) (name := q.name) (attrs := q.attrs) (List.mem_map.2 ⟨q, hq, rfl⟩)
+    simpa [withInherited_parameter, withInherited_operation] using this
+  unfold opRefs at hm
+  rcases List.mem_append.1 hm with h | h
+  · obtain ⟨⟨q, i⟩, hqi, rfl⟩ := List.mem_map.1 h
+    exact hparam q (List.mem_append_left _ (List.fst_mem_of_mem_zipIdx hqi)) _
+  · cases hr : o.ret with
+    | none => simp [hr] at h
+    | single tg st ty =>
+      simp only [hr, List.mem_singleton] at h
+      subst h
+      simp [RefOk, opAllowEntries, withInherited_operation]
+    | tuple ps =>
+      simp only [hr] at h
+      obtain ⟨⟨q, i⟩, hqi, rfl⟩ := List.mem_map.1 h
+      exact hparam q (List.mem_append_right _ (by simpa [hr, retParams] using List.fst_mem_of_mem_zipIdx hqi)) _
+
+/-- the table entries of one enumerator: its fields, then the enumerator -/
+def enumeratorAllowEntries (ekey : String) (eall : List (List String)) (e : Enumerator) : AllowTable :=
+  memberAllows "Field" (scopedId e.name ekey) (withInherited "Enumerator" (allowArgs e.attrs) eall)
+    ((e.fields.getD []).map fun f => (f.name, f.attrs)) ++
+  [(scopedId e.name ekey, some (withInherited "Enumerator" (allowArgs e.attrs) eall))]
+
+theorem enumeratorRefs_ok (hflag : Gen.memberTypesParsedInMemberScope = true) (ekey pth : String) (eall : List (List String)) (e : Enumerator) :
+    ∀ m ∈ fieldRefs (scopedId e.name ekey) (allowArgs e.attrs ++ eall) pth (e.fields.getD []), RefOk (enumeratorAllowEntries ekey eall e) m := by
+  intro m hm
+  obtain ⟨f, hf, p2, rfl⟩ := fieldRefs_mem hm
+  apply namedMemberRef_ok hflag
+  unfold enumeratorAllowEntries
+  apply List.mem_append_left
+  have := memberAllows_mem (kind := "Field") (scope := scopedId e.name ekey) (par := withInherited "Enumerator" (allowArgs e.attrs) eall)
+    (ms := (e.fields.getD []).map fun f => (f.name, f.attrs)) (name := f.name) (attrs := f.attrs) (List.mem_map.2 ⟨f, hf, rfl⟩)
+  simpa [withInherited_field, withInherited_enumerator] using this
+
+theorem defAllowEntries_iface (ms : String) (doc attrs name bases ops) :
+    defAllowEntries ms (.iface doc attrs name bases ops) =
+      (ops.flatMap (opAllowEntries (scopedId name ms) (withInherited "Interface" (allowArgs attrs) []))) ++
+      [(scopedId name ms, some (withInherited "Interface" (allowArgs attrs) []))] := rfl
+
+theorem defAllowEntries_enum (ms : String) (doc attrs c u name und es) :
+    defAllowEntries ms (.enum doc attrs c u name und es) =
+      (es.flatMap (enumeratorAllowEntries (scopedId name ms) (withInherited "Enum" (allowArgs attrs) []))) ++
+      [(scopedId name ms, some (withInherited "Enum" (allowArgs attrs) []))] := rfl
+
+theorem defRefGroups_ok (hflag : Gen.memberTypesParsedInMemberScope = true) (ms path : String) (d : Def) :
+    ∀ g ∈ defRefGroups ms path d, ∀ m ∈ g, RefOk (defAllowEntries ms d) m := by
+  intro g hg m hm
+  cases d with
+  | struct doc attrs c name fields =>
+    simp only [defRefGroups, List.mem_singleton] at hg
+    subst hg
+    obtain ⟨f, hf, pth, rfl⟩ := fieldRefs_mem hm
+    apply namedMemberRef_ok hflag
+    simp only [defAllowEntries, List.mem_append]
+    left
+    have := memberAllows_mem (kind := "Field") (scope := scopedId name ms) (par := withInherited "Struct" (allowArgs attrs) [])
+      (ms := fields.map fun f => (f.name, f.attrs)) (name := f.name) (attrs := f.attrs) (List.mem_map.2 ⟨f, hf, rfl⟩)
+    simpa [withInherited_field, withInherited_struct] using this
+  | iface doc attrs name bases ops =>
+    rw [defAllowEntries_iface, withInherited_interface]
+    simp only [defRefGroups] at hg
+    rcases List.mem_append.1 hg with h | h
+    · obtain ⟨⟨o, i⟩, hoi, rfl⟩ := List.mem_map.1 h
+      refine (opRefs_ok hflag (scopedId name ms) _ (allowArgs attrs) o m hm).mono ?_
+      intro e he
+      exact List.mem_append_left _ (List.mem_flatMap.2 ⟨o, List.fst_mem_of_mem_zipIdx hoi, he⟩)
+    · simp only [List.mem_singleton] at h
+      subst h
+      obtain ⟨⟨b, i⟩, _, rfl⟩ := List.mem_map.1 hm
+      simp [RefOk, ownRef]
+  | enum doc attrs c u name und es =>
+    rw [defAllowEntries_enum, withInherited_enum]
+    simp only [defRefGroups] at hg
+    rcases List.mem_append.1 hg with h | h
+    · obtain ⟨⟨e, i⟩, hei, rfl⟩ := List.mem_map.1 h
+      refine (enumeratorRefs_ok hflag (scopedId name ms) _ (allowArgs attrs) e m hm).mono ?_
+      intro x hx
+      exact List.mem_append_left _ (List.mem_flatMap.2 ⟨e, List.fst_mem_of_mem_zipIdx hei, hx⟩)
+    · simp only [List.mem_singleton] at h
+      subst h
+      cases und with
+      | none => simp at hm
+      | some u2 =>
+        simp only [List.mem_singleton] at hm
+        subst hm
+        simp [RefOk, ownRef]
+  | custom doc attrs name => simp [defRefGroups] at hg
+  | «alias» doc attrs name ty =>
+    simp only [defRefGroups, List.mem_singleton] at hg
+    subst hg
+    simp only [List.mem_singleton] at hm
+    subst hm
+    simp [RefOk, defAllowEntries, memberTypeScope, hflag, withInherited_alias]
+
+/-! ### every commented element is registered under its key with its chain -/
+
+def ComOk (tbl : AllowTable) (c : Commented) : Prop := (c.key, some c.chain) ∈ tbl
+
+/-- all commented parts of a definition satisfy `P` -/
+def DefParts.All (q : DefParts) (P : Commented → Prop) : Prop := P q.self ∧ ∀ m ∈ q.members, P m.1 ∧ ∀ c ∈ m.2, P c
+
+theorem DefParts.All.parseOrder {q : DefParts} {P : Commented → Prop} (h : q.All P) : ∀ c ∈ q.parseOrder, P c := by
+  intro c hc
+  unfold DefParts.parseOrder at hc
+  rcases List.mem_append.1 hc with h1 | h1
+  · obtain ⟨m, hm, hcm⟩ := List.mem_flatMap.1 h1
+    rcases List.mem_append.1 hcm with h2 | h2
+    · exact (h.2 m hm).2 c h2
+    · rw [List.mem_singleton.1 h2]; exact (h.2 m hm).1
+  · rw [List.mem_singleton.1 h1]; exact h.1
+
+theorem DefParts.All.astOrder {q : DefParts} {P : Commented → Prop} (h : q.All P) : ∀ c ∈ q.astOrder, P c := by
+  intro c hc
+  unfold DefParts.astOrder at hc
+  rcases List.mem_append.1 hc with h1 | h1
+  · rcases List.mem_append.1 h1 with h2 | h2
+    · obtain ⟨m, hm, hcm⟩ := List.mem_flatMap.1 h2
+      exact (h.2 m hm).2 c hcm
+    · obtain ⟨m, hm, rfl⟩ := List.mem_map.1 h2
+      exact (h.2 m hm).1
+  · rw [List.mem_singleton.1 h1]; exact h.1
+
+theorem DefParts.All.visitOrder {q : DefParts} {P : Commented → Prop} (h : q.All P) : ∀ c ∈ q.visitOrder, P c := by
+  intro c hc
+  unfold DefParts.visitOrder at hc
+  rcases List.mem_append.1 hc with h1 | h1
+  · rw [List.mem_singleton.1 h1]; exact h.1
+  · obtain ⟨m, hm, hcm⟩ := List.mem_flatMap.1 h1
+    rcases List.mem_cons.1 hcm with h2 | h2
+    · rw [h2]; exact (h.2 m hm).1
+    · exact (h.2 m hm).2 c h2
+
+theorem fieldsCommented_ok {tbl : AllowTable} {scope path : String} {cchain : List (List String)} {fs : List Field}
+    (h : ∀ f ∈ fs, (scopedId f.name scope, some (allowArgs f.attrs ++ cchain)) ∈ tbl) :
+    ∀ c ∈ fieldsCommented scope path cchain fs, ComOk tbl c := by
+  intro c hc
+  unfold fieldsCommented at hc
+  obtain ⟨⟨f, i⟩, hfi, rfl⟩ := List.mem_map.1 hc
+  exact h f (List.fst_mem_of_mem_zipIdx hfi)
+
+theorem defParts_ok (ms path : String) (d : Def) : (defParts ms path d).All (ComOk (defAllowEntries ms d)) := by
+  cases d with
+  | struct doc attrs c name fields =>
+    refine ⟨by simp [defParts, ComOk, defAllowEntries, withInherited_struct], ?_⟩
+    intro m hm
+    simp only [defParts] at hm
+    obtain ⟨c0, hc0, rfl⟩ := List.mem_map.1 hm
+    refine ⟨?_, by simp⟩
+    refine fieldsCommented_ok ?_ c0 hc0
+    intro f hf
+    simp only [defAllowEntries]
+    apply List.mem_append_left
+    have := memberAllows_mem (kind := "Field") (scope := scopedId name ms) (par := withInherited "Struct" (allowArgs attrs) [])
+      (ms := fields.map fun f => (f.name, f.attrs)) (name := f.name) (attrs := f.attrs) (List.mem_map.2 ⟨f, hf, rfl⟩)
+    simpa [withInherited_field, withInherited_struct] using this
+  | iface doc attrs name bases ops =>
+    rw [defAllowEntries_iface, withInherited_interface]
+    refine ⟨by simp [defParts, ComOk], ?_⟩
+    intro m hm
+    simp only [defParts] at hm
+    obtain ⟨⟨o, i⟩, hoi, rfl⟩ := List.mem_map.1 hm
+    refine ⟨?_, by simp⟩
+    apply List.mem_append_left
+    refine List.mem_flatMap.2 ⟨o, List.fst_mem_of_mem_zipIdx hoi, ?_⟩
+    simp [opAllowEntries, opCommented, withInherited_operation]
+  | enum doc attrs c u name und es =>
+    rw [defAllowEntries_enum, withInherited_enum]
+    refine ⟨by simp [defParts, ComOk], ?_⟩
+    intro m hm
+    simp only [defParts] at hm
+    obtain ⟨⟨e, i⟩, hei, rfl⟩ := List.mem_map.1 hm
+    have he := List.fst_mem_of_mem_zipIdx hei
+    constructor
+    · apply List.mem_append_left
+      refine List.mem_flatMap.2 ⟨e, he, ?_⟩
+      simp [enumeratorAllowEntries, withInherited_enumerator]
+    · refine fieldsCommented_ok ?_
+      intro f hf
+      apply List.mem_append_left
+      refine List.mem_flatMap.2 ⟨e, he, ?_⟩
+      unfold enumeratorAllowEntries
+      apply List.mem_append_left
+      have := memberAllows_mem (kind := "Field") (scope := scopedId e.name (scopedId name ms)) (par := withInherited "Enumerator" (allowArgs e.attrs) (allowArgs attrs))
+        (ms := (e.fields.getD []).map fun f => (f.name, f.attrs)) (name := f.name) (attrs := f.attrs) (List.mem_map.2 ⟨f, hf, rfl⟩)
+      simpa [withInherited_field, withInherited_enumerator] using this
+  | custom doc attrs name => exact ⟨by simp [defParts, ComOk, defAllowEntries, withInherited_custom], by simp [defParts]⟩
+  | «alias» doc attrs name ty => exact ⟨by simp [defParts, ComOk, defAllowEntries, withInherited_alias], by simp [defParts]⟩
+
+/-! ### from definitions to the program -/
+
+theorem perDef_mem {α} {p : Program} {g : Nat → String → String → Def → List α} {x : α} (h : x ∈ perDef p g) :
+    ∃ f ∈ p, ∃ d ∈ f.defs, ∃ i path, x ∈ g i (fileModScope f) path d := by
+  unfold perDef at h
+  obtain ⟨⟨f, i⟩, hfi, h1⟩ := List.mem_flatMap.1 h
+  obtain ⟨⟨d, j⟩, hdj, h2⟩ := List.mem_flatMap.1 h1
+  exact ⟨f, List.fst_mem_of_mem_zipIdx hfi, d, List.fst_mem_of_mem_zipIdx hdj, i, _, h2⟩
+
+theorem allowTable_of_def {p : Program} {f : SFile} {d : Def} (hf : f ∈ p) (hd : d ∈ f.defs) :
+    ∀ e ∈ defAllowEntries (fileModScope f) d, e ∈ allowTable p := by
+  intro e he
+  unfold allowTable
+  apply List.mem_append_right
+  refine List.mem_flatMap.2 ⟨f, hf, ?_⟩
+  unfold fileAllowEntries
+  apply List.mem_append_left
+  exact List.mem_flatMap.2 ⟨d, hd, he⟩
+
+/-! ### what a lint site records -/
+
+theorem recordedScope_deprecated (w o : String) : recordedScope "Deprecated" w o = some w := by
+  have : scopeRule "Deprecated" = .writtenScope := by decide
+  simp [recordedScope, this]
+
+theorem recordedScope_malformed (w o : String) : recordedScope "MalformedDocComment" w o = some o := by
+  have : scopeRule "MalformedDocComment" = .ownScopedId := by decide
+  simp [recordedScope, this]
+
+theorem recordedScope_brokenLink (w o : String) : recordedScope "BrokenDocLink" w o = some o := by
+  have : scopeRule "BrokenDocLink" = .ownScopedId := by decide
+  simp [recordedScope, this]
+
+theorem recordedScope_incorrect (w o : String) : recordedScope "IncorrectDocComment" w o = some o := by
+  have : scopeRule "IncorrectDocComment" = .ownScopedId := by decide
+  simp [recordedScope, this]
+
+/-- the scope string a site records is a key of the table, registered with exactly the site's chain -/
+def SiteOk (tbl : AllowTable) (s : LintSite) : Prop := ∃ k, s.scope = some k ∧ (k, some s.chain) ∈ tbl
+
+theorem memberRefSites_mem {t : Table} {file : Nat} {ms : String} {g : List MemberRef} {s : LintSite}
+    (h : s ∈ memberRefSites t file ms g) : ∃ m ∈ g, ∃ pth, s = depSite file m pth := by
+  unfold memberRefSites at h
+  rcases List.mem_append.1 h with h1 | h1 <;>
+  · obtain ⟨m, hm, h2⟩ := List.mem_flatMap.1 h1
+    obtain ⟨pth, _, rfl⟩ := List.mem_map.1 h2
+    exact ⟨m, hm, pth, rfl⟩
+
+theorem depSite_ok {tbl : AllowTable} {file : Nat} {m : MemberRef} {pth : String} (h : RefOk tbl m) :
+    SiteOk tbl (depSite file m pth) ∧ (depSite file m pth).kind ∈ Gen.lintKinds :=
+  ⟨⟨m.writtenScope, by simp [depSite, recordedScope_deprecated], h⟩, by simp [depSite]; decide⟩
+
+theorem malformedSites_mem {file : Nat} {c : Commented} {s : LintSite} (h : s ∈ malformedSites file c) :
+    s = docSite "MalformedDocComment" file c := by
+  unfold malformedSites at h
+  split at h <;> simp at h
+  exact h
+
+theorem brokenLinkSites_mem {t : Table} {file : Nat} {c : Commented} {s : LintSite} (h : s ∈ brokenLinkSites t file c) :
+    s = docSite "BrokenDocLink" file c := by
+  unfold brokenLinkSites at h
+  simp only at h
+  split at h
+  · simp at h
+  · obtain ⟨_, _, rfl⟩ := List.mem_map.1 h
+    rfl
+
+theorem incorrectTagSites_mem {file : Nat} {c : Commented} {s : LintSite} (h : s ∈ incorrectTagSites file c) :
+    s = docSite "IncorrectDocComment" file c := by
+  unfold incorrectTagSites at h
+  simp only at h
+  split at h
+  · simp at h
+  · split at h
+    · rcases List.mem_append.1 h with h1 | h1
+      · split at h1
+        · simp at h1
+        · obtain ⟨_, _, rfl⟩ := List.mem_map.1 h1; rfl
+      · obtain ⟨_, _, rfl⟩ := List.mem_map.1 h1; rfl
+    · rcases List.mem_append.1 h with h1 | h1
+      · obtain ⟨_, _, rfl⟩ := List.mem_map.1 h1; rfl
+      · split at h1 <;> (obtain ⟨_, _, rfl⟩ := List.mem_map.1 h1; rfl)
+
+theorem docSite_ok {tbl : AllowTable} {kind : String} {file : Nat} {c : Commented} (h : ComOk tbl c)
+    (hk : recordedScope kind "" c.key = some c.key) : SiteOk tbl (docSite kind file c) :=
+  ⟨c.key, by simp [docSite, hk], h⟩
+
+/-- **the lookup lemma.** Every lint the model records for a program carries a scope string that is a key of the
+    program's table, registered there with exactly the `allow` chain of the element the lint concerns (own attributes,
+    then the enclosing definitions'). Holds because member types are parsed in the member's own scope. -/
+theorem lintSites_ok (hflag : Gen.memberTypesParsedInMemberScope = true) (p : Program) :
+    ∀ s ∈ lintSites p, SiteOk (allowTable p) s ∧ s.kind ∈ Gen.lintKinds := by
+  intro s hs
+  unfold lintSites at hs
+  simp only [List.mem_append] at hs
+  rcases hs with ((h | h) | h) | h
+  · obtain ⟨f, hf, d, hd, i, path, hx⟩ := perDef_mem h
+    obtain ⟨c, hc, hsc⟩ := List.mem_flatMap.1 hx
+    rw [malformedSites_mem hsc]
+    have hok := (defParts_ok (fileModScope f) path d).parseOrder c hc
+    exact ⟨docSite_ok (allowTable_of_def hf hd _ hok) (recordedScope_malformed _ _), by simp [docSite]; decide⟩
+  · obtain ⟨f, hf, d, hd, i, path, hx⟩ := perDef_mem h
+    unfold defDeprecatedSites at hx
+    obtain ⟨g, hg, hsg⟩ := List.mem_flatMap.1 hx
+    obtain ⟨m, hm, pth, rfl⟩ := memberRefSites_mem hsg
+    exact depSite_ok ((defRefGroups_ok hflag (fileModScope f) path d g hg m hm).mono (allowTable_of_def hf hd))
+  · obtain ⟨f, hf, d, hd, i, path, hx⟩ := perDef_mem h
+    obtain ⟨c, hc, hsc⟩ := List.mem_flatMap.1 hx
+    rw [brokenLinkSites_mem hsc]
+    have hok := (defParts_ok (fileModScope f) path d).astOrder c hc
+    exact ⟨docSite_ok (allowTable_of_def hf hd _ hok) (recordedScope_brokenLink _ _), by simp [docSite]; decide⟩
+  · obtain ⟨f, hf, d, hd, i, path, hx⟩ := perDef_mem h
+    obtain ⟨c, hc, hsc⟩ := List.mem_flatMap.1 hx
+    rw [incorrectTagSites_mem hsc]
+    have hok := (defParts_ok (fileModScope f) path d).visitOrder c hc
+    exact ⟨docSite_ok (allowTable_of_def hf hd _ hok) (recordedScope_incorrect _ _), by simp [docSite]; decide⟩
+
+/-! ### facts of the grammar the model relies on -/
+
+/-- every `TypeRef` position of grammar.lalrpop is one the model knows, with the scope the model gives it: a new
+    production mentioning `TypeRef`, or a base / underlying type / single return type / anonymous-type argument parsed in
+    another scope than assumed, stops this from compiling -/
+theorem typeRef_scopes_known : Gen.typeRefParseScopes = typeRefScopesExpected := by decide
+
+/-- members are written inside the scope their container opens (`ContainerIdentifier … ContainerEnd`) -/
+theorem member_nesting_known :
+    (∀ q ∈ [("Struct", "Field"), ("Interface", "Operation"), ("Interface", "TypeRef"), ("Operation", "Parameter"), ("Operation", "ReturnType"),
+            ("Enum", "Enumerator"), ("Enum", "TypeRef"), ("Enumerator", "Field")],
+      Gen.scopedProductions.any (fun r => r.1 == q.1 && r.2.contains q.2) = true) := by decide
+
+/-! ### the command line and the attributes in play -/
+
+theorem cliParse_some {vs cli : List String} (h : cliParse vs = some cli) : cli = vs ∧ ∀ v ∈ cli, cliAccepts v = true := by
+  unfold cliParse at h
+  split at h
+  · rename_i hall
+    simp only [Option.some.injEq] at h
+    subst h
+    exact ⟨rfl, fun v hv => List.all_eq_true.1 hall v hv⟩
+  · cases h
+
+theorem namedByCli_iff (cli : List String) (code : String) :
+    namedByCli cli code = true ↔
+      ∃ v ∈ cli, cliAccepts v = true ∧ (eqIgnoreAsciiCase v Gen.allowAllIdentifier = true ∨ eqIgnoreAsciiCase v code = true) := by
+  simp [namedByCli, List.any_eq_true]
+
+theorem namedByAttrs_iff (allows : List (List String)) (code : String) :
+    namedByAttrs allows code = true ↔ ∃ a ∈ allows, ∃ id ∈ a, id = Gen.allowAllIdentifier ∨ id = code := by
+  simp [namedByAttrs, List.any_eq_true]
+
+/-- with the case-insensitive comparison of `is_lint_allowed_by`, every value clap accepts names what it spells -/
+theorem namedBy_cli_iff (hcmp : Gen.allowCompareIgnoresCase = true) (cli : List String) (code : String)
+    (hacc : ∀ v ∈ cli, cliAccepts v = true) : NamedBy cli code ↔ namedByCli cli code = true := by
+  rw [namedByCli_iff]
+  unfold NamedBy
+  simp only [lintIdEq, hcmp, if_true]
+  constructor
+  · rintro ⟨v, hv, h⟩; exact ⟨v, hv, hacc v hv, h⟩
+  · rintro ⟨v, hv, _, h⟩; exact ⟨v, hv, h⟩
+
+theorem allowable_of_not_invalid {v : String} (h : (!allowArgInvalid v) = true) : v ∈ Gen.allowableLintIdentifiers := by
+  unfold allowArgInvalid at h
+  simp only [Bool.not_or, Bool.not_not, Bool.and_eq_true] at h
+  exact List.contains_iff_mem.1 h.1
+
+theorem siteArgsOk_mem {p : Program} {s : LintSite} (h : siteArgsOk p s = true) :
+    (∀ a ∈ fileAllowsOf p s.file, ∀ v ∈ a, v ∈ Gen.allowableLintIdentifiers) ∧
+    (∀ a ∈ s.chain, ∀ v ∈ a, v ∈ Gen.allowableLintIdentifiers) := by
+  unfold siteArgsOk at h
+  rw [List.all_eq_true] at h
+  constructor
+  · intro a ha v hv
+    exact allowable_of_not_invalid (List.all_eq_true.1 (h a (List.mem_append_left _ ha)) v hv)
+  · intro a ha v hv
+    exact allowable_of_not_invalid (List.all_eq_true.1 (h a (List.mem_append_right _ ha)) v hv)
+
 end Slicec
